@@ -66,6 +66,7 @@ type NodeCfg struct {
 	Verbose         bool              `json:"verbose,omitempty"`
 	DynWorkers      bool              `json:"dyn_workers,omitempty"`
 	DiskChunk       int               `json:"disk_chunk,omitempty"`
+	RawSendDelayUs  int               `json:"raw_send_delay_us,omitempty"` // every send on the mirror's raw socket blocks this long
 	TapDelayUs      int               `json:"tap_delay_us,omitempty"` // the consumer of the outgoing queues waits this long before each message
 	DiskReadMs      int               `json:"disk_read_ms,omitempty"` // simulated duration of a whole-file read
 	ExtraArgs       []string          `json:"extra_args,omitempty"`
